@@ -274,6 +274,7 @@ class Model:
     def parse(self, text, filename="[buf]"):
         """apply one text.  returns dict(accept, tok, why, grey, file, line); the tree is self.root"""
         self.diags = 0
+        self.marks = []
         self.grey = False
         self.cur_file = filename
         toks = lex(text, self.env)
@@ -282,7 +283,7 @@ class Model:
         self.include_depth = 0
         try:
             self.body(self.root, 0)
-            return {"accept": True, "grey": self.grey}
+            return {"accept": True, "grey": self.grey, "diags": self.diags}
         except Reject as r:
             t = r.tok
             fil = None
@@ -329,10 +330,15 @@ class Model:
                 if not o.reset:
                     o.comment = None
 
-    def body(self, sec, level):
+    def body(self, sec, level, path=()):
         pending = None        # last comment seen (annotation for the next assignment)
         last = None           # option of the previous item (deprecated handling happens when the next token arrives)
         while True:
+            if self.pos < len(self.stream):
+                t0, f0 = self.stream[self.pos]
+                # item boundary: (offset, file, section flags, section path, nesting level)
+                self.marks.append({"off": t0.start, "file": f0, "flags": sec.flags, "path": path, "level": level,
+                                   "incdepth": self.include_depth, "kind": t0.kind, "name": t0.val if t0.kind == "STR" else None})
             t = self.next()
             if t.kind == "COMMENT":
                 if sec.flags & F_COMMENTS:
@@ -382,7 +388,7 @@ class Model:
                 if b.kind != "{":
                     raise Reject(b, "missing opening brace")
                 inst = self.open_section(sec, o, title, b)
-                self.body(inst, level + 1)
+                self.body(inst, level + 1, path + ((o.d["n"], o.vals.index(inst)),))
                 self.validate(o, b)
             elif k == "func":
                 self.call(sec, o)
